@@ -4,7 +4,7 @@ From Coq Require Import ZArith NArith List Bool.
 Import ListNotations.
 From SV Require Import Common.Int32 C02deep.Syntax C02deep.Sem C02deep.Passes C02deep.ProofsSem C02deep.ProofsDce
   C02deep.ProofsCcp C02deep.ProofsCcpFull C02deep.ProofsCcpWitness C02deep.ProofsLvn C02deep.ProofsWf C02deep.ProofsWfLvn
-  C02deep.ProofsPipeline.
+  C02deep.ProofsCseStatic C02deep.ProofsCse C02deep.ProofsPipeline.
 Open Scope Z_scope.
 
 (* ---- the semantics ---- *)
@@ -196,17 +196,69 @@ Theorem C02deep_round : forall w f f1 fl,
   refines_add w (dce (lvn f1)) f /\ wf_func (dce (lvn f1)) = true /\ no_break_l (f_body (dce (lvn f1))) = true.
 Proof. exact round_preserves. Qed.
 
+(* ---- common subexpression elimination (common_subexpression_elimination.rs) ----
+   `sup` is the supply of fresh names (the real pass takes them from a counter); fresh_for sup f: pairwise
+   distinct and not names of f.  cse sup f = None only if the supply is too short. *)
+(* on the target semantics every run is reproduced exactly: same value, same calls, same trap, same fuel *)
+Theorem C02deep_cse_preserves : forall w sup f f' args fuel,
+  wf_func f = true -> no_break_l (f_body f) = true -> fresh_for sup f -> cse sup f = Some f' ->
+  same_unless_stuck (sem Wrap w f' args fuel) (sem Wrap w f args fuel).
+Proof. exact cse_preserves. Qed.
+(* in every checking mode a run that ends normally is reproduced (mode Add: the invariant between rounds) *)
+Theorem C02deep_cse_preserves_mode : forall m w hd sup f f' sup' args fuel v tr,
+  wf_func f = true -> no_break_l (f_body f) = true -> fresh_for sup f -> cse_gen hd sup f = Some (f', sup') ->
+  sem m w f args fuel = Done v tr -> sem m w f' args fuel = Done v tr.
+Proof. exact cse_preserves_mode. Qed.
+(* the output is well formed, the rest of the supply is fresh for it *)
+Theorem C02deep_cse_wf : forall hd sup f f' sup',
+  wf_func f = true -> fresh_for sup f -> cse_gen hd sup f = Some (f', sup') ->
+  wf_func f' = true /\ fresh_for sup' f' /\ (no_break_l (f_body f) = true -> no_break_l (f_body f') = true).
+Proof. exact cse_wf. Qed.
+(* before fix 32a0c6b (finding C02-cse-hoists-trapping-division) a division computed in both branches was hoisted
+   too: it trapped before the call that precedes it inside the branch, so the calls made before the trap differ;
+   the pass as it is now leaves that function alone *)
+Theorem C02deep_cse_old_hoists_division_refuted :
+  exists f sup f', wf_func f = true /\ no_break_l (f_body f) = true /\ cse_old sup f = Some f' /\
+    sem Wrap wit_div_world f [1; 7; 0] 10 = Trap [(9%N, [])] /\ sem Wrap wit_div_world f' [1; 7; 0] 10 = Trap [] /\
+    cse sup f = Some f.
+Proof. exact cse_old_hoists_division_refuted. Qed.
+Definition ex_cse : func :=
+  mkfunc [1%N; 2%N; 3%N]
+    [SIf (EVar 1%N)
+       [SCall 9%N [EVar 2%N] None; SBin 4%N PLUS (EVar 2%N) (EVar 3%N); SBin 5%N MINUS (EVar 4%N) (EInt 3)]
+       [SBin 6%N MINUS (EVar 2%N) (EInt 3); SBin 7%N PLUS (EVar 2%N) (EVar 3%N); SBin 8%N DIV (EVar 2%N) (EVar 3%N)]
+       [(10%N, EVar 5%N, EVar 7%N)]]
+    (EVar 10%N).
+Example C02deep_cse_nonvacuous :
+  wf_func ex_cse = true /\ no_break_l (f_body ex_cse) = true /\ fresh_for [20%N; 21%N] ex_cse /\
+  cse [20%N; 21%N] ex_cse = Some
+    (mkfunc [1%N; 2%N; 3%N]
+       [SBin 20%N PLUS (EVar 2%N) (EVar 3%N);
+        SIf (EVar 1%N)
+          [SCall 9%N [EVar 2%N] None; SBin 4%N PLUS (EVar 2%N) (EVar 3%N); SBin 5%N MINUS (EVar 4%N) (EInt 3)]
+          [SBin 6%N MINUS (EVar 2%N) (EInt 3); SBin 7%N PLUS (EVar 2%N) (EVar 3%N); SBin 8%N DIV (EVar 2%N) (EVar 3%N)]
+          [(10%N, EVar 5%N, EVar 7%N)]]
+       (EVar 10%N)) /\
+  sem Wrap ex_world ex_cse [1; 5; 6] 10 = Done 8 [(9%N, [5])].
+Proof.
+  split; [vm_compute; reflexivity|]. split; [vm_compute; reflexivity|]. split.
+  - split; [repeat constructor; cbn; intuition discriminate|]. intros x [<-|[<-|[]]] H; vm_compute in H; intuition discriminate.
+  - split; vm_compute; reflexivity.
+Qed.
+
 (* optimize_function_for_rounds (lib.rs) restricted to the modelled passes, in its order and number of rounds:
-   Passes.pipeline b = (ccp; [lvn if b]; dce) twice, then ccp; dce; ccp.  Only the INPUT has to be well formed;
-   `pipeline_no_dead_final_operands` says that none of the five ccp applications met dead final operands. *)
-Theorem C02deep_pipeline : forall w b f f' fl,
-  wf_func f = true -> no_break_l (f_body f) = true -> pipeline_no_dead_final_operands b f ->
-  pipeline b f = Some (f', fl) ->
+   Passes.pipeline lvn cse sup = (ccp; [cse]; [lvn]; dce) twice, then ccp; dce; ccp (scalar replacement and the loop
+   optimisations off).  Only the INPUT has to be well formed, without a Break outside of a loop, and the supply fresh
+   for it; `pipeline_no_dead_final_operands` says that none of the five ccp applications met dead final operands. *)
+Theorem C02deep_pipeline : forall w lvn_on cse_on sup f f' fl sup',
+  wf_func f = true -> no_break_l (f_body f) = true -> fresh_for sup f ->
+  pipeline_no_dead_final_operands lvn_on cse_on sup f ->
+  pipeline lvn_on cse_on sup f = Some (f', fl, sup') ->
   refines w f' f /\ wf_func f' = true /\ no_break_l (f_body f') = true.
 Proof. exact pipeline_preserves_named. Qed.
 Example C02deep_pipeline_nonvacuous :
-  wf_func ex_ccp = true /\ no_break_l (f_body ex_ccp) = true /\ pipeline_no_dead_final_operands true ex_ccp /\
-  (exists f', pipeline true ex_ccp = Some (f', (false, false)) /\ f' <> ex_ccp /\
+  wf_func ex_ccp = true /\ no_break_l (f_body ex_ccp) = true /\ pipeline_no_dead_final_operands true true [] ex_ccp /\
+  (exists f', pipeline true true [] ex_ccp = Some (f', (false, false), []) /\ f' <> ex_ccp /\
               sem Wrap ex_world f' [4] 10 = Done 9 [(8%N, [5; 9]); (8%N, [5; 8]); (8%N, [5; 7])]).
 Proof.
   split; [vm_compute; reflexivity|]. split; [vm_compute; reflexivity|]. split; [vm_compute; reflexivity|].
@@ -267,3 +319,7 @@ Print Assumptions C02deep_dce_no_break.
 Print Assumptions C02deep_lvn_no_break.
 Print Assumptions C02deep_ccp_no_break.
 Print Assumptions C02deep_pipeline.
+Print Assumptions C02deep_cse_preserves.
+Print Assumptions C02deep_cse_preserves_mode.
+Print Assumptions C02deep_cse_wf.
+Print Assumptions C02deep_cse_old_hoists_division_refuted.
